@@ -93,6 +93,22 @@ pub fn mk_pred(p: PredD, negate: bool) -> impl Fn(&u64) -> bool + Clone + Send +
 }
 /// number of invocations of the reduce operator so far in this case
 pub static RED_CALLS: AtomicU64 = AtomicU64::new(0);
+/// comparator of min_by/max_by, identity closure of fold
+pub const ST_CMP: u32 = 105;
+pub const ST_ID: u32 = 106;
+pub static AUX_CALLS: [AtomicU64; 8] = [const { AtomicU64::new(0) }; 8];
+/// the closures handed to the provided terminals (key extraction, comparator, fold identity): who
+/// ran them is recorded; they panic at their k-th invocation when `PANIC_AT == (stage, k)`
+#[inline]
+pub fn aux_gate(stage: u32, x: u64) {
+    rec::record(stage, x);
+    let k = AUX_CALLS[(stage - 100) as usize].fetch_add(1, Ordering::SeqCst) + 1;
+    let p = *PANIC_AT.lock().unwrap();
+    if p == Some((stage, k)) {
+        rec::record(ST_RED_FIRED, k);
+        panic!("injected panic at invocation {} of the closure of stage {}", k, stage);
+    }
+}
 /// the reduce operator panics at its k-th invocation when `PANIC_AT == (ST_RED, k)`; which
 /// operands that invocation combines (elements, chunk results, worker results) depends on the run
 pub const ST_RED_FIRED: u32 = 104;
@@ -268,14 +284,32 @@ pub fn run_terminal_core<Q: Par<Item = u64>>(p: Q, ctx: &mut Ctx) -> Outcome {
 /// once in the trait and delegate to reduce / find / map+count)
 pub fn run_terminal_full<Q: Par<Item = u64>>(p: Q, ctx: &mut Ctx) -> Outcome {
     match ctx.term.clone() {
-        TermD::Fold(r, id) => Outcome::Opt(Some(p.fold(move || id, mk_red(r)))),
+        TermD::Fold(r, id) => Outcome::Opt(Some(p.fold(
+            move || {
+                aux_gate(ST_ID, id);
+                id
+            },
+            mk_red(r),
+        ))),
         TermD::Sum => Outcome::Opt(Some(p.sum())),
         TermD::Min => Outcome::Opt(p.min()),
         TermD::Max => Outcome::Opt(p.max()),
-        TermD::MinBy => Outcome::Opt(p.min_by(|a, b| a.cmp(b))),
-        TermD::MaxBy => Outcome::Opt(p.max_by(|a, b| a.cmp(b))),
-        TermD::MinByKey(k) => Outcome::Opt(p.min_by_key(move |x| x % k)),
-        TermD::MaxByKey(k) => Outcome::Opt(p.max_by_key(move |x| x % k)),
+        TermD::MinBy => Outcome::Opt(p.min_by(|a, b| {
+            aux_gate(ST_CMP, *a);
+            a.cmp(b)
+        })),
+        TermD::MaxBy => Outcome::Opt(p.max_by(|a, b| {
+            aux_gate(ST_CMP, *a);
+            a.cmp(b)
+        })),
+        TermD::MinByKey(k) => Outcome::Opt(p.min_by_key(move |x| {
+            aux_gate(ST_KEY, *x);
+            x % k
+        })),
+        TermD::MaxByKey(k) => Outcome::Opt(p.max_by_key(move |x| {
+            aux_gate(ST_KEY, *x);
+            x % k
+        })),
         TermD::Any(pd) => Outcome::Bool(p.any(mk_pred(pd, false))),
         TermD::All(pd) => Outcome::Bool(p.all(mk_pred(pd, false))),
         _ => run_terminal_core(p, ctx),
